@@ -60,7 +60,7 @@ def main(argv):
         env = dict(os.environ, PYTHONDONTWRITEBYTECODE='1')
         tres = 'skipped'
         if tests:
-            r = subprocess.run(['/venv/bin/python', '-m', 'pytest', '-q', '-x', '-p', 'no:cacheprovider', '--timeout=900'],
+            r = subprocess.run(['/venv/bin/python', '-m', 'pytest', '-q', '-x', '-p', 'no:cacheprovider', '--timeout=60'],
                                cwd=dst, env=dict(env, PYTHONPATH=dst), capture_output=True, text=True)
             tres = 'pass' if r.returncode == 0 else 'FAIL(' + r.stdout.strip().splitlines()[-1][:80] + ')'
         out = []
